@@ -192,7 +192,8 @@ class RegionBoundingBox:
         ymin = self.iymin
         ymax = self.iymax
 
-        if xmin >= shape[1] or ymin >= shape[0] or xmax <= 0 or ymax <= 0:
+        if (max(xmin, 0) >= min(xmax, shape[1])
+                or max(ymin, 0) >= min(ymax, shape[0])):
             # no overlap of the bounding box with the input shape
             return None, None
 
@@ -348,7 +349,7 @@ class RegionBoundingBox:
         ixmax = min(self.ixmax, other.ixmax)
         iymin = max(self.iymin, other.iymin)
         iymax = min(self.iymax, other.iymax)
-        if ixmax < ixmin or iymax < iymin:
+        if ixmax <= ixmin or iymax <= iymin:
             return None
 
         return RegionBoundingBox(ixmin=ixmin, ixmax=ixmax, iymin=iymin,
